@@ -105,6 +105,32 @@ pub fn run(args: &Args, out: &mut Out) {
             }
         }
     }
+    // the round's sequence budget (512): TCP, `pre` probes sent normally, then a burst of address-in-use outcomes that
+    // uses up the budget exactly / almost / beyond, then more ttls to send within the same round
+    let mut edge = 0usize;
+    for pre in 0..=2usize {
+        for burst in [508usize, 509, 510, 511, 512, 513] {
+            for pd in [PortDirection::new_fixed_src(5000), PortDirection::new_fixed_dest(80)] {
+                let cfg = Cfg {
+                    proto: Protocol::Tcp, strategy: MultipathStrategy::Classic, portdir: pd,
+                    target: "10.0.0.9".parse().unwrap(), trace_id: 0, max_rounds: 2, first_ttl: 1, max_ttl: 6,
+                    grace_ns: 0, max_inflight: 24, initial_sequence: 33434, min_ns: 0, max_ns: 50_000_000, max_samples: 256, max_flows: 64,
+                };
+                let mut sends = vec![0u8; pre];
+                sends.extend(std::iter::repeat(2u8).take(burst));
+                sends.extend([0u8; 6]);
+                let truth = std::rc::Rc::new(std::cell::RefCell::new(vec![]));
+                let env = FaultEnv { cfg: cfg.clone(), sends, recvs: vec![0; 8], si: 0, ri: 0, last: None, last_resp: None, truth: truth.clone(), sent_ok: false };
+                let t0 = vclock::BASE_NS;
+                vclock::set(t0);
+                let r = exec(&cfg, Box::new(env), t0, 0);
+                let tr = truth.borrow().clone();
+                out.case(&crate::m_run::case_line(&cfg, &r, &tr), &r.render(), &crate::m_run::full_oracle(&cfg, &r, &tr, false));
+                edge += 1;
+            }
+        }
+    }
+    out.stat("sequence_budget_edge_scripts", edge);
     out.stat("fault_scripts", n);
     out.stat("steps_per_script", steps);
 }
